@@ -795,8 +795,8 @@ func RunCodec(outDir string, seed int64, tier string) error {
 	sizes := []int{1, 10, 0}
 	nBeacons, nStates := 8, 1
 	if tier == "thorough" {
-		sizes = []int{1, 2, 3, 4, 5, 6, 7, 8, 9, 10, 0, 0, 0, 0, 0, 0}
-		nBeacons, nStates = 200, 4
+		sizes = []int{1, 2, 3, 4, 5, 6, 7, 8, 9, 10, 0, 0, 0}
+		nBeacons, nStates = 100, 2
 	}
 	for si, sch := range g.sch {
 		for k, n := range sizes {
@@ -839,6 +839,16 @@ func RunCodec(outDir string, seed int64, tier string) error {
 			grp, _ := g.group(sch, groupOpts{n: 2, withKey: true, withSeed: true, id: "x", subsec: true})
 			e.groupAll(grp, nil, false)
 			e.infoAll(chain.NewChainInfo(cloneGroup(grp)), false)
+		}
+		// values whose every basic field is non-zero (filled by reflection, so that fields unknown to
+		// the generators are exercised too)
+		{
+			grp, _ := g.group(sch, groupOpts{n: 2, withKey: true, withSeed: true, withTT: true, id: "filled"})
+			fillZero(grp)
+			e.groupAll(grp, nil, true)
+			d := g.dbStateN(sch, dkg.Complete, si%2 == 0, 2)
+			fillZero(d)
+			e.stateAll(store, d)
 		}
 		e.pairAll(sch, true)
 		e.pairAll(sch, false)
